@@ -3945,7 +3945,14 @@ func checkRepoStructs(files map[string]*ast.File) []string {
 func main() {
 	repo := flag.String("repo", "/repo", "repository root")
 	out := flag.String("out", "", "output directory (one Lean module per translated function)")
+	list := flag.Bool("list", false, "print the translated functions (file, function, receiver type) and exit")
 	flag.Parse()
+	if *list {
+		for _, sp := range specs {
+			fmt.Printf("%s %s %s\n", sp.file, sp.goName, strings.ReplaceAll(sp.recvType, " ", ""))
+		}
+		return
+	}
 	files := map[string]*ast.File{}
 	srcs := map[string][]byte{}
 	for i := range specs {
